@@ -86,6 +86,9 @@ fn check_inner(case: &Case, obs: &mut Obs) -> CheckResult {
     if s.ended_idle {
         obs.label("worker-exited-idle");
     }
+    if s.slot_expired_sends > 0 {
+        obs.label("send-while-slot-holds-expired-path");
+    }
     if s.hot_loop {
         obs.label("refetch-hot-loop(min_delay=0)");
     }
@@ -114,7 +117,7 @@ fn case_strategy(max_ops: usize) -> impl Strategy<Value = Case> {
 }
 
 fn run_random(ctx: &Ctx) {
-    let n = ctx.tier.pick(40_000, 2_000_000);
+    let n = ctx.tier.pick(80_000, 2_000_000);
     let max_ops = ctx.tier.pick(30, 80);
     ctx.run_prop("histories-random", n, || case_strategy(max_ops), check);
 }
